@@ -67,15 +67,19 @@ macro_rules! td_impl {
     ($s:ty) => {
         impl Td for TDigest<$s> {
             fn insert(&mut self, x: f64) {
+                crate::infra::beat();
                 TDigest::insert(self, x)
             }
             fn insert_weighted(&mut self, x: f64, w: f64) {
+                crate::infra::beat();
                 TDigest::insert_weighted(self, x, w)
             }
             fn quantile(&self, q: f64) -> f64 {
+                crate::infra::beat();
                 TDigest::quantile(self, q)
             }
             fn cdf(&self, x: f64) -> f64 {
+                crate::infra::beat();
                 TDigest::cdf(self, x)
             }
             fn count(&self) -> f64 {
